@@ -50,6 +50,7 @@ func init() {
 }
 
 func runC05(c *an.Ctx) {
+	unwrapRule(c, "C05.truth")
 	p := c.P
 	el := c.Fn("C05.if", "(*Runtime).executeList")
 	if el == nil {
